@@ -74,10 +74,10 @@ func genE(t *rapid.T) CaseE {
 // ---------------------------------------------------------------- model
 
 type taskM struct {
-	id      uint32
-	cmd     uint32
-	handed  bool
-	doneBy  string // name of the final kind whose callback completed it
+	id     uint32
+	cmd    uint32
+	handed bool
+	doneBy string // name of the final kind whose callback completed it
 }
 
 type agentM struct {
@@ -117,12 +117,12 @@ func sessionPrint(a *agent.Agent) string {
 }
 
 type worldE struct {
-	rec   *tsx.Recorder
-	ep    *agentfx.Endpoint
-	ses   []*agentfx.Session
-	mod   []*agentM
-	loot  string
-	base  []map[string]int // per agent: events of a request that carries no callback and hands out nothing
+	rec  *tsx.Recorder
+	ep   *agentfx.Endpoint
+	ses  []*agentfx.Session
+	mod  []*agentM
+	loot string
+	base []map[string]int // per agent: events of a request that carries no callback and hands out nothing
 }
 
 func evKey(e tsx.Event) string { return e.Kind + "@" + e.Agent }
@@ -187,9 +187,9 @@ func diffSnaps(a, b []snap) string {
 // ---------------------------------------------------------------- check
 
 type obsE struct {
-	rejectedPlausible map[string]bool // src/kind-class of rejected callbacks with effectful kind
+	rejectedPlausible                                            map[string]bool // src/kind-class of rejected callbacks with effectful kind
 	accEffect, accNoEffect, rejected, relayAcc, logsAcc, replays int
-	labels                                                map[string]bool
+	labels                                                       map[string]bool
 }
 
 var lastE obsE
